@@ -355,6 +355,87 @@ def rule_r6(prog, res) -> None:
         res.ok("C03.R6", "no in-place updates", "no augmented assignment to a local array in the resampling modules", nontrivial=False)
 
 
+NARROW_INTS = {"i1", "i2", "u1", "u2", "int8", "int16", "uint8", "uint16"}
+
+
+def _narrow_dtype(prog, fi, e) -> bool:
+    """the expression names an integer dtype of at most 16 bit (literally or through a module constant)"""
+    if e is None:
+        return False
+    if isinstance(e, ast.Constant) and isinstance(e.value, str):
+        return e.value.lstrip("<>=|") in NARROW_INTS
+    d = dotted(e) or ""
+    if d.split(".")[-1] in NARROW_INTS:
+        return True
+    if isinstance(e, ast.Name):
+        try:
+            hits = prog.lookup(fi.module, e.id, fi.variant)
+        except Exception:  # noqa: BLE001
+            hits = []
+        return any(getattr(h, "kind", "") == "global" and h.value is not None and _narrow_dtype(prog, fi, h.value) for h in hits)
+    return False
+
+
+def rule_r7(prog, res) -> None:
+    """index arithmetic of the resampling is exact for every number of patches: an array created with a 16-bit (or
+    narrower) integer dtype — such as the patch-id dtype — is never an operand of a multiplication, whose result would
+    wrap around silently (index k * (N + 1) exceeds 32767 from N = 182 patches on)"""
+    KEEP_DTYPE = {"tile", "repeat", "reshape", "ravel", "flatten", "copy", "sort", "unique", "concatenate", "asarray", "array", "atleast_1d", "squeeze", "transpose"}
+    n_src = 0
+    for fi in prog.funcs:
+        if not fi.module.name.startswith(("yaw.correlation", "yaw.redshifts", "yaw.catalog", "yaw.utils")):
+            continue
+        narrow: set = set()
+        changed = True
+        rounds = 0
+        while changed and rounds < 5:
+            changed = False
+            rounds += 1
+            for x in walk_no_nested(fi.node):
+                if not (isinstance(x, ast.Assign) and len(x.targets) == 1 and isinstance(x.targets[0], ast.Name)):
+                    continue
+                v, nm = x.value, x.targets[0].id
+                is_narrow = False
+                if isinstance(v, ast.Call):
+                    fnm = (dotted(v.func) or unparse(v.func)).split(".")[-1]
+                    if _narrow_dtype(prog, fi, kwarg(v, "dtype")) or (fnm == "astype" and v.args and _narrow_dtype(prog, fi, v.args[0])):
+                        is_narrow = True
+                    elif fnm in KEEP_DTYPE:
+                        src = v.func.value if isinstance(v.func, ast.Attribute) and (dotted(v.func.value) or "").split(".")[0] not in ("np", "numpy") else (v.args[0] if v.args else None)
+                        is_narrow = isinstance(src, ast.Name) and src.id in narrow and kwarg(v, "dtype") is None
+                elif isinstance(v, ast.Name):
+                    is_narrow = v.id in narrow
+                elif isinstance(v, ast.Subscript) and isinstance(v.value, ast.Name):
+                    is_narrow = v.value.id in narrow
+                if is_narrow and nm not in narrow:
+                    narrow.add(nm)
+                    changed = True
+        if not narrow:
+            continue
+        n_src += 1
+        res.touch(fi)
+        bad = None
+        for x in walk_no_nested(fi.node):
+            if isinstance(x, ast.BinOp) and isinstance(x.op, (ast.Mult, ast.Pow, ast.LShift)):
+                if any(isinstance(s_, ast.Name) and s_.id in narrow for s_ in (x.left, x.right)):
+                    bad = x
+            if isinstance(x, ast.AugAssign) and isinstance(x.op, (ast.Mult, ast.Pow, ast.LShift)) and isinstance(x.target, ast.Name) and x.target.id in narrow:
+                bad = x
+        if bad is not None:
+            res.violation(
+                "C03.R7",
+                fi,
+                bad,
+                f"`{unparse(bad)[:60]}` multiplies an array of a 16-bit (or narrower) integer type ({sorted(narrow)}): the product wraps around without error once it exceeds the type's range, "
+                "the jackknife then leaves out the wrong elements for large numbers of patches",
+                key_extra=f"narrow-int-product-{fi.qualname}",
+            )
+        else:
+            res.ok("C03.R7", res.site(fi, "narrow ints"), f"arrays of a narrow integer type {sorted(narrow)} are not multiplied")
+    if n_src == 0:
+        res.ok("C03.R7", "no narrow ints", "no array of a narrow integer type is bound to a local in the resampling modules", nontrivial=False)
+
+
 RULES = [
     ("C03.R1", rule_r1, QUICK),
     ("C03.R2", rule_r2, QUICK),
@@ -362,4 +443,5 @@ RULES = [
     ("C03.R4", rule_r4, QUICK),
     ("C03.R5", rule_r5, QUICK),
     ("C03.R6", rule_r6, QUICK),
+    ("C03.R7", rule_r7, QUICK),
 ]
